@@ -424,13 +424,17 @@ func execCfg(env *retryEnv, mon *Mon, op string, strict bool) string {
 	// Those positions are printed as d:nan (the driver decides the same region exactly); what the real
 	// code returned there is reported by the monitor below.
 	nanPos := make([]bool, 6)
+	nanSeen := false
 	for i := 1; i <= 6; i++ {
 		ds[i-1] = dr.VerifCalculateDelay(i)
 		nanPos[i-1] = c.BaseDelay == 0 && math.IsInf(math.Pow(c.BackoffFactor, float64(i-1)), 0)
 		if nanPos[i-1] {
 			sb.WriteString(" d:nan")
 			if ds[i-1] != 0 {
-				mon.Tag("excluded.zero-base-float-overflow.nan-delay")
+				if !nanSeen {
+					mon.Tag("excluded.zero-base-float-overflow.nan-delay")
+					nanSeen = true
+				}
 				if strict {
 					mon.Hit("C15", "delay-nan-zero-base-float-overflow", map[string]interface{}{"op": op, "attempt": i, "delay_ns": int64(ds[i-1])})
 				}
